@@ -1,0 +1,34 @@
+//! Verification seam (compiled only with `--cfg dashu_verif`, off by default).
+//!
+//! Marks the regions in which this crate calls the global allocator and handles a null
+//! return itself. A simulated allocator can consult [in_fallible_site] to decide whether
+//! an allocation failure may be injected (failing any other request would abort inside
+//! `alloc`/`std`). Nothing in the library reads this state.
+
+use core::sync::atomic::{AtomicU32, Ordering};
+
+static DEPTH: AtomicU32 = AtomicU32::new(0);
+
+/// RAII marker for an allocator call whose failure is handled by the caller.
+pub struct FallibleSite(());
+
+impl FallibleSite {
+    #[inline]
+    pub fn enter() -> Self {
+        DEPTH.fetch_add(1, Ordering::Relaxed);
+        FallibleSite(())
+    }
+}
+
+impl Drop for FallibleSite {
+    #[inline]
+    fn drop(&mut self) {
+        DEPTH.fetch_sub(1, Ordering::Relaxed);
+    }
+}
+
+/// Whether the current allocator call was issued from a site that checks for null.
+#[inline]
+pub fn in_fallible_site() -> bool {
+    DEPTH.load(Ordering::Relaxed) > 0
+}
